@@ -110,18 +110,23 @@ def r2_boosted(ctx):
     one = [st for st, dv in astx.defs_of(f.node, "winning_candidate") if dv is not None and astx.u(dv) == "remaining_cands[0]"]
     good = len(one) == 1 and literals(N.conj(astx.path_condition(f.node, one[0], pm))) == {"eq(NC, 1)"}
     ctx.check(good, f, one[0] if one else f.node, "a single remaining candidate wins outright", "", "single-candidate branch changed")
-    # dictator branch
-    ifs = [n for n in astx.walk_own(f.node) if isinstance(n, ast.If) and any(x is d.call for x in ast.walk(n))]
-    top = ifs[0] if ifs else None
+    # dictator branch: the branch of the mixing test that holds the weighted ballot draw
+    dd = [x for x in align.draws_in(prog, f) if x.kind == "random.choices"]
     else_body = None
-    if top is not None:
-        n = top
-        while n.orelse and len(n.orelse) == 1 and isinstance(n.orelse[0], ast.If):
-            n = n.orelse[0]
-        else_body = ast.Module(body=n.orelse, type_ignores=[])
+    if len(dd) == 1:
+        node = dd[0].call
+        while node in pm:
+            par = pm[node]
+            if isinstance(par, ast.If) and isinstance(node, ast.stmt) and not any(x is d.call for x in ast.walk(ast.Module(body=(par.body if node in par.body else par.orelse), type_ignores=[]))):
+                else_body = ast.Module(body=par.body if node in par.body else par.orelse, type_ignores=[])
+                break
+            node = par
     if else_body is None or not else_body.body:
-        ctx.violated(f, f.node, "BoostedRandomDictator: dictator branch", "no else branch")
+        ctx.violated(f, f.node, "BoostedRandomDictator: dictator branch", "no branch holding exactly the dictator draw")
         return
+    lits_d = literals(N.conj(astx.path_condition(f.node, dd[0].call, pm)))
+    want_d = literals(Normalizer(None, inline=False).conj([(ast.parse("NC == 1", mode="eval").body, False), (ast.parse("u <= 1 / (NC - 1)", mode="eval").body, False)]))
+    ctx.check(lits_d == want_d, f, dd[0].call, "dictator branch iff c > 1 and u > 1/(c-1)", str(sorted(lits_d)), f"dictator branch is taken under {sorted(lits_d)}; documented {sorted(want_d)}")
     T = _dictator_branch(ctx, f, else_body, "BoostedRandomDictator")
     wc = [st for st, dv in astx.defs_of(f.node, "winning_candidate") if dv is not None and T is not None and astx.u(dv) == f"list({T}[0])[0]"]
     rcs = astx.calls_in(f.node, "remove_cand")
@@ -154,7 +159,7 @@ def r3_random_tiebreak(ctx):
 
 RULES = [
     ("C17.R1", r1_random_dictator, 3, "RandomDictator: weighted ballot draw aligned with weights; first position wins; random tiebreak on ties"),
-    ("C17.R2", r2_boosted, 9, "BoostedRandomDictator: mixing threshold 1/(c-1), squares law pipeline, alignment, dictator branch"),
+    ("C17.R2", r2_boosted, 10, "BoostedRandomDictator: mixing threshold 1/(c-1), squares law pipeline, alignment, dictator branch"),
     ("C17.R3", r3_random_tiebreak, 2, "random tiebreak is a uniform permutation of exactly the tied set"),
 ]
 
